@@ -798,8 +798,7 @@ pub fn run_enumerated(prop: &str, rep: &mut Report, depth: usize, cap: usize) {
         }
     });
     rep.extra.insert("enumerated.candidates_in_the_initial_state".into(), J::Int(n0 as i64));
-    rep.extra.insert("enumerated.depth".into(), J::Int(depth as i64));
-    rep.extra.insert("enumerated.stride".into(), J::Int(stride as i64));
+    rep.extra.insert(format!("enumerated.stride_at_depth_{depth}"), J::Int(stride as i64));
     rep.require("enumerated.histories", 1_000);
 }
 
@@ -891,6 +890,8 @@ pub fn run(prop: &str, rep: &mut Report, tier: &str) {
     if matches!(prop, "C03" | "C04" | "C05" | "C06" | "C10" | "C11" | "C13") {
         // bounded exhaustive part: all histories of 3 calls (thorough: 4, evenly spaced beyond the cap) over the small universe
         if tier == "thorough" {
+            // all histories of 3 calls, and an evenly spaced sample of the histories of 4 calls
+            run_enumerated(prop, rep, 3, usize::MAX);
             run_enumerated(prop, rep, 4, 3_000_000);
         } else {
             run_enumerated(prop, rep, 3, 400_000);
